@@ -573,10 +573,14 @@ class Engine(object):
                 raise AnalysisBroken('linbound: path budget exceeded in %s' % fn.id)
             if start == 0 and b in loops:
                 if b in seen:
+                    if getattr(self, 'backedge_hook', None):
+                        self.backedge_hook(self, fn, b, st)
                     continue       # back edge: the head was analysed with everything the loop writes havocked
                 body, atoms, prefixes, mono, monodown = loops[b]
                 self.havoc(st, atoms, prefixes, mono, monodown)
                 seen = seen | {b}
+                if getattr(self, 'loophead_hook', None):
+                    self.loophead_hook(self, fn, b, st)
             ended = False
             elems = fn.blocks[b].elems
             for idx in range(start, len(elems)):
